@@ -8,7 +8,7 @@ from harness.core import Check, Finding
 
 KINDS = ['cookies', 'headers', 'status', 'raised', 'errpage', 'crash', 'body',
          'notfound', 'notallowed', 'badpath', 'empty', 'head', 's204',
-         'toolarge', 'badjson', 'errjson', 'crashjson', 'copyhdr', 'badmultipart', 'chunked', 'multipart', 'chunkedmp', 'routed', 'routedsel', 'signed', 'signeddict']
+         'toolarge', 'badjson', 'errjson', 'crashjson', 'copyhdr', 'badmultipart', 'chunked', 'multipart', 'chunkedmp', 'routed', 'routedsel', 'signed', 'signeddict', 'mutator', 'reader', 'reader799', 'statica', 'staticb']
 QUICK_KINDS = ['cookies', 'headers', 'status']
 
 # application configurations (DESIGN.md 6/C08 kinds "error page"): plain, debug pages, custom
@@ -52,6 +52,16 @@ ROUTE_PAIRS = [
     ('routed', 'routed', 'plain'), ('routed', 'routedsel', 'plain'), ('routedsel', 'routedsel', 'hooks'),
     ('routedsel', 'routed', 'plain'), ('signed', 'signed', 'plain'), ('signeddict', 'signeddict', 'plain'),
     ('signed', 'cookies', 'plain'),
+]
+
+# what the framework hands to application code is mutated in place by one request; the other request (same
+# raw inputs, same static route) must not notice; also the custom reason phrase of an unlisted status code.
+# (a, b, cfg, later requests of thread 1)
+MUT_PAIRS = [
+    ('mutator', 'reader', 'plain', ('reader',)), ('reader', 'mutator', 'plain', ('reader799',)),
+    ('mutator', 'reader799', 'debug', ('mutator', 'reader')), ('reader799', 'mutator', 'plain', ()),
+    # a route served repeatedly on thread 1 while thread 2 serves a different static route
+    ('statica', 'staticb', 'plain', ('statica',)), ('staticb', 'statica', 'plain', ('staticb', 'statica')),
 ]
 
 # bodies whose decoding is interleaved: preemption points inside _iter_chunked / _iter_body / _body_read /
@@ -159,6 +169,35 @@ def mk(kind, p, rid, app=1):
         pl = [1, 2, 'x'] if kind == 'signed' else {'n': 1, 'l': 'x'}
         r['signed'] = {'s': pl}
         r['ops'] = [('scookie_edit', 's', pl, 'm%d' % p), ('cookie', 'c'), ('scookie', 's')]
+    elif kind in ('mutator', 'reader', 'reader799'):
+        # ONE static route, the SAME raw query string / Cookie header / form body for every request of these
+        # kinds (any cache keyed by the raw input is hit).  The mutator changes in place every object the
+        # framework hands it; a reader must see what its own request carries, fresh.
+        r.update(rid=900, rule='/static/mr', path='/static/mr', method='POST', qs='l=1&l=2&q=same',
+                 cookie='c=same; flash=f', hdrs={'X-K': 'same'}, body='f=same&m=1&m=2',
+                 ctype='application/x-www-form-urlencoded', kwargs={})
+        if kind == 'mutator':
+            r['ops'] = [('mutate', 'urlargs'), ('mutate', 'cookies'), ('mutate', 'query'), ('mutate', 'forms'),
+                        ('mutate', 'params'), ('mutate', 'post'), ('mutate', 'files'), ('envset', 'x.inj', 'm'),
+                        ('envset', 'HTTP_X_INJ', 'm'), ('extset', 'foo', 'm'), ('sethdr', 'X-Inj', 'm'),
+                        ('statusline', '799 Quota exceeded for tenant acme'), ('rdstatus',)]
+            r['out'] = ('ret', 'mutated')
+        else:
+            r['ops'] = [('whoami',), ('kwargs',), ('dump', 'urlargs'), ('dump', 'cookies'), ('dump', 'query'),
+                        ('dump', 'forms'), ('dump', 'params'), ('dump', 'post'), ('dump', 'files'), ('dump', 'headers'),
+                        ('envget', 'x.inj'), ('extget', 'foo'), ('rdhdr', 'X-Inj'), ('cookie', 'flash')]
+            if kind == 'reader':
+                r['ops'] += [('status', 799), ('rdstatus',)]
+                r['out'] = ('ret', 'read')
+            else:
+                r['out'] = ('error', 799, 'quota')
+    elif kind in ('statica', 'staticb'):
+        # two different static routes: each request must run the handler of its own route
+        name = '/static/%s' % kind[-1]
+        r.update(rid=901 if kind == 'statica' else 902, rule=name, path=name, kwargs={})
+        r['ops'] = [('whoami',), ('kwargs',), ('dump', 'urlargs'), ('path',), ('sethdr', 'X-Who', kind), ('setcookie', 'who', kind),
+                    ('status', 201 if kind == 'statica' else 202)]
+        r['out'] = ('ret', kind)
     elif kind == 'errjson':
         r['hdrs'] = dict(r['hdrs'], Accept='application/json')
         r['ops'] = [('sethdr', 'X-Own', 'o%d' % p), ('query', 'q')]
@@ -238,6 +277,9 @@ def check_case(case, w, cache):
             names = '+'.join(it[1].get('name', '?') for it in case['threads'][tid] if it[0] == 'serve')
             return (k, 'thread %d (%s) under the schedule differs from the same request served alone: got %r expected %r'
                     % (tid, names, got[:6], expect[:6]))
+    sh = w.shared_handouts()
+    if sh:
+        return ('shared-object', 'the framework handed the SAME object to two different requests: %r' % (sh,))
     ref = module_ref(case, cache)
     if ref is not None and w.module_state != ref:
         bad = [n for (n, a), (_, b) in zip(w.module_state, ref) if a != b]
@@ -372,7 +414,11 @@ class C08(Check):
             'uploads, Request.copy() with edits of the copy after header views were cached, before/after_request '
             'hooks, 404/405/bad path/empty/HEAD/204, two requests through ONE route object with int/float/re/rex[selector]/path '
             'filters and different matched values (handler kwargs, url_args), signed cookies with mutable payloads '
-            'edited in place (same raw cookie on both threads and back-to-back); every scheduled run starts COLD '
+            'edited in place (same raw cookie on both threads and back-to-back), a mutator that changes IN PLACE every '
+            'object the framework hands it (url_args, cookies, query, forms, params, POST, files, environ, extension '
+            'attribute, response headers, custom reason phrase of an unlisted code) against readers with the same '
+            'raw inputs on the same static route, two different static routes (handler identity), identity (`is`) '
+            'of handed-out objects across requests; every scheduled run starts COLD '
             '(lazily filled module-level caches emptied: template lines, filter cache; found by walking the package) '
             'and the module-level state left behind is compared with that of an unpreempted run in a fresh process; quick: every single preemption point of thread 1 (every k-th '
             'line for programs over 900 lines) x ~45 ordered pairs of kinds and application configurations, plus '
@@ -417,6 +463,8 @@ class C08(Check):
             jobs.append(((a, b), 'single', 0, 0, cfg))
         for a, b, cfg, later in COLD_PAIRS:
             jobs.append(((a, b), 'single', 0, 0, cfg, None, (later,)))
+        for a, b, cfg, later in MUT_PAIRS:
+            jobs.append(((a, b), 'single', rng.randrange(1000), 0, cfg, (0, 1, 0 if thorough else 450), later))
         # the same raw signed cookie back-to-back on one thread while another thread presents it too
         jobs.append((('signed', 'signed'), 'single', 0, 0, 'plain', None, ('signed', 'signeddict')))
         off = rng.randrange(1000)
